@@ -346,6 +346,14 @@ func (c *check) family(u int64) (string, int64) {
 		return "rewrite", u
 	}
 	u -= int64(len(c.docs))
+	if c.tier != "thorough" {
+		// quick: the histories (pairs) are cheap and catch state carried from one render to the next; they come
+		// before the schedule shards, which can be slow on a tree that shares more state
+		if u < c.nHist {
+			return "hist", u
+		}
+		u -= c.nHist
+	}
 	if u < int64(len(c.e3)) {
 		return "e3", u
 	}
@@ -354,10 +362,13 @@ func (c *check) family(u int64) (string, int64) {
 		return "race", u
 	}
 	u -= int64(len(c.race))
-	if u < c.nHist {
-		return "hist", u
+	if c.tier == "thorough" {
+		if u < c.nHist {
+			return "hist", u
+		}
+		u -= c.nHist
 	}
-	return "e2", u - c.nHist
+	return "e2", u
 }
 
 func (c *check) histSeq(u int64) []int {
